@@ -113,11 +113,12 @@ func tryValidate(val reflect.Value) error {
 	if (t.Kind() == reflect.Ptr || t.Kind() == reflect.Interface) && val.IsNil() {
 		return nil
 	}
-	for val.Kind() == reflect.Interface {
-		// validate the value stored in an interface typed field
+	for val.Kind() == reflect.Interface || (val.Kind() == reflect.Ptr && val.Type().Elem().Kind() == reflect.Ptr) {
+		// validate the value stored in an interface typed field or held behind
+		// more than one pointer
 		val = val.Elem()
 		t = val.Type()
-		if t.Kind() == reflect.Ptr && val.IsNil() {
+		if (t.Kind() == reflect.Ptr || t.Kind() == reflect.Interface) && val.IsNil() {
 			return nil
 		}
 	}
@@ -428,6 +429,8 @@ func validateNonEmpty(v interface{}, name string) error {
 func validateNonEmptyWithAllowNil(v interface{}, _ string, allowNil bool) error {
 	if cv := chaseValue(reflect.ValueOf(v)); cv.IsValid() && cv.Kind() == reflect.String {
 		v = cv.String() // look through pointers to strings
+	} else {
+		v = derefValidated(v) // and to slices, maps, arrays and regular expressions
 	}
 	if s, ok := v.(string); ok {
 		if s == "" {
